@@ -295,3 +295,24 @@ Proof.
   - right. reflexivity.
   - destruct H as [H|H]; [apply D in H; discriminate | discriminate].
 Qed.
+
+(* --- inodes are used only under a recorded, non-empty, unchanged UUID -------------------------------------------------------- *)
+Lemma has_past_inodes_spec volatile recorded current :
+  has_past_inodes volatile recorded current = true <-> volatile = false /\ current <> 0%N /\ recorded = current.
+Proof.
+  unfold has_past_inodes. rewrite !andb_true_iff, !negb_true_iff, N.eqb_neq, N.eqb_eq. tauto.
+Qed.
+Lemma has_past_inodes_empty_recorded volatile current : has_past_inodes volatile 0%N current = false.
+Proof.
+  destruct (has_past_inodes volatile 0%N current) eqn:E; [|reflexivity].
+  apply has_past_inodes_spec in E. destruct E as [_ [A B]]. congruence.
+Qed.
+
+(* --- scan_link records the kind it is given -------------------------------------------------------------------------------------- *)
+Lemma scan_link_records d name to hard d' :
+  scan_link d name to hard = Some d' ->
+  In (mkCL name to hard, true) (sd_links d') \/ In (mkCL name to hard) (sd_link_ins d').
+Proof.
+  intro H. apply scan_link_spec in H. destruct H as [_ [_ [_ [_ [_ [[[A _] | [A _]] _]]]]]]; [left; exact A|].
+  right. rewrite A. apply in_app_iff. right. left. reflexivity.
+Qed.
